@@ -342,11 +342,13 @@ namespace mfuse
 
                 for (intptr_t i = 0; i < arrayIndex; ++i) {
                     new(objlist + i) Type(std::move_if_noexcept(temp[i]));
+                    temp[i].~Type();
                 }
 
                 new(objlist + arrayIndex) Type(obj);
                 for (intptr_t i = arrayIndex; i < numobjects - 1; ++i) {
                     new(objlist + i + 1) Type(std::move_if_noexcept(temp[i]));
+                    temp[i].~Type();
                 }
 
                 Object_allocator.Free(temp);
@@ -354,10 +356,20 @@ namespace mfuse
         }
         else
         {
-            for (intptr_t i = numobjects - 1; i > arrayIndex; i--) {
-                objlist[i] = std::move_if_noexcept(objlist[i - 1]);
+            const intptr_t last = numobjects - 1;
+            if (arrayIndex == last)
+            {
+                // appended: the cell behind the last element holds no object yet
+                new(objlist + last) Type(obj);
             }
-            objlist[arrayIndex] = obj;
+            else
+            {
+                new(objlist + last) Type(std::move_if_noexcept(objlist[last - 1]));
+                for (intptr_t i = last - 1; i > arrayIndex; i--) {
+                    objlist[i] = std::move_if_noexcept(objlist[i - 1]);
+                }
+                objlist[arrayIndex] = obj;
+            }
         }
     }
 
